@@ -521,6 +521,65 @@ class Flattening:
         return f"{row[1]}" if row[0] in ("names", "other") else f"<{row[0]}: {row[1]}>"
 
 
+class LoopFlow(Flow):
+    """The shared flow engine binds the target of a `for` weakly (old tags | element tags) at the loop header, for the body as well as for
+    the code after the loop.  Inside the body the target is always freshly bound, so a loop variable that re-uses the name of a raw
+    parameter (`for parent, child in zip(flattened, flattened[1:])` in a function with a parameter `child`) is what the iterable yields
+    and nothing else.  This subclass hands the strongly updated state to the body edge and keeps the weak one for the exit edge."""
+
+    def _analyse(self, fi: FuncInfo) -> None:
+        from core.cfg import ENTRY
+
+        cfg = self.cfg(fi)
+        init: dict[str, frozenset] = {}
+        for p in fi.param_names:
+            t = self.param_tags.get((fi.fq, p), frozenset())
+            if t:
+                init[p] = t
+        if not hasattr(self, "_final_env"):
+            self._final_env = {}
+        if fi.outer is not None:
+            for k, v in self._final_env.get(fi.outer.fq, {}).items():
+                init.setdefault(k, v)
+        states: dict[object, dict[str, frozenset]] = {ENTRY: init}
+        work = [ENTRY]
+        order = 0
+        final_env: dict[str, frozenset] = dict(init)
+        while work:
+            n = work.pop()
+            order += 1
+            if order > 20000:
+                break
+            st = states.get(n, {})
+            out = dict(st)
+            body_out = None
+            if isinstance(n, ast.AST):
+                for var, t in st.items():
+                    self.var_at[(id(n), var)] = t
+                self._stmt(fi, n, out)
+                if isinstance(n, (ast.For, ast.AsyncFor)):
+                    body_out = dict(st)
+                    self._assign(fi, n.target, self._it(self._expr(fi, n.iter, body_out)), body_out, n.iter)
+                for k, v in out.items():
+                    if v:
+                        final_env[k] = final_env.get(k, frozenset()) | v
+            for m in cfg.g.successors(n):
+                o = body_out if body_out is not None and cfg.g[n][m].get("labels") == {True} else out
+                old = states.get(m)
+                if old is None:
+                    states[m] = dict(o)
+                    work.append(m)
+                else:
+                    changed = False
+                    for k, v in o.items():
+                        if not v <= old.get(k, frozenset()):
+                            old[k] = old.get(k, frozenset()) | v
+                            changed = True
+                    if changed:
+                        work.append(m)
+        self._final_env[fi.fq] = final_env
+
+
 def run_flow(cx: Ctx, cons: list[FuncInfo], flat: dict[int, str]) -> Flow:
     T = cx.T
     consset = set(cons)
@@ -538,7 +597,7 @@ def run_flow(cx: Ctx, cons: list[FuncInfo], flat: dict[int, str]) -> Flow:
         return tags
 
     seeds = {(cx.init.fq, cx.modules_param): {"RAW"}, (cx.init.fq, cx.limit_param): {"LIMIT"}}
-    return Flow(cx.repo, T, Spec(sources=sources, post=post, param_seeds=seeds, objects_carry=False, scope=lambda f: f in consset))
+    return LoopFlow(cx.repo, T, Spec(sources=sources, post=post, param_seeds=seeds, objects_carry=False, scope=lambda f: f in consset))
 
 
 def rule_r1_r3(cx: Ctx, cons: list[FuncInfo]) -> Flow:
